@@ -310,6 +310,7 @@ func shapeShiftHistory(g *Gen, o *Out, n int) {
 			[]interface{}{a, b}, map[string]interface{}{"0": a, "1": b}, map[string]interface{}{"k": a, "x": b}, []int{int(a), int(b)}, map[string]int{"a": int(a), "b": int(b)},
 			[2]float64{a, b}, []interface{}{}, map[string]interface{}{}, "str", nil, b, []interface{}{map[string]interface{}{"f": a}, map[string]interface{}{"f": b}},
 			map[string]interface{}{"p": map[string]interface{}{"f": a}, "q": map[string]interface{}{"f": b}}, []string{"0", "x"}, map[string]string{"x": "0", "0": "x"},
+			[]interface{}{map[string]interface{}{"x/y": a, "t~1": []interface{}{b}}, map[string]interface{}{"x/y": b}}, map[string]interface{}{"k": map[string]interface{}{"x/y": a, "t~1": []interface{}{a}}},
 			[]interface{}{[]interface{}{a}, []interface{}{b}}, map[int]string{1: "a"}, []interface{}{a, nil, "s"},
 		}
 		var data []interface{}
@@ -324,6 +325,8 @@ func shapeShiftHistory(g *Gen, o *Out, n int) {
 		bodies := []GExpr{
 			GMatch{Path: []string{bodyName}, Op: []string{"eq", "ne"}[g.r.Intn(2)], Raw: lit},
 			GMatch{Path: []string{bodyName, "f"}, Op: "eq", Raw: lit},
+			GMatch{Path: []string{bodyName, "x/y"}, Op: "eq", Raw: lit, SelStyle: 1},
+			GMatch{Path: []string{bodyName, "t~1", "0"}, Op: "ne", Raw: lit},
 			GColl{Op: "any", Path: []string{bodyName}, Mode: "default", Def: "y", Inner: GMatch{Path: []string{"y"}, Op: "eq", Raw: lit}},
 			GAnd{GMatch{Path: []string{n1}, Op: "ne", Raw: lit}, GMatch{Path: []string{"x"}, Op: "eq", Raw: fmt.Sprint(int(b))}},
 		}
